@@ -232,6 +232,34 @@ def basic_corpus(tier, cfgs_soup="six", sample=True):
     return tasks
 
 
+def recon_mc_and_replay(c, tier, pinned):
+    """MC of the reconstructor (MC_Recon) and replay of every enumerated token table through the real reconstructor.
+    pinned: the property pins the rendering down (C09 line ending, C10 arithmetic): a mismatch is a violation, else drift."""
+    c.mc("MC_Recon", "MC_Recon_bug.cfg", expect_violation=True, workers=4, timeout=600)
+    for cfgname in Q(tier, ["MC_Recon.cfg", "MC_Recon_free.cfg"], ["MC_Recon_thorough.cfg", "MC_Recon_free.cfg"]):
+        r = c.mc("MC_Recon", cfgname, workers=8, timeout=3000)
+        beh = [p for t, p in r["replay"]]
+        bf = os.path.join(WORK, f"{c.prop}_{cfgname}.beh.ndjson")
+        mf = os.path.join(WORK, f"{c.prop}_{cfgname}.mismatch.ndjson")
+        write_ndjson(bf, beh)
+        rr = run([VH, "replay", "recon", bf, mf], timeout=3000)
+        st = json.loads(rr.stdout.strip().splitlines()[-1])
+        c.extra["token_tables_replayed"] = c.extra.get("token_tables_replayed", 0) + st["replayed"]
+        c.traces_validated += st["replayed"]
+        if beh and len(c.samples) < 3:
+            c.samples.append({"reconstructor_behaviour": beh[len(beh) // 3]})
+        mism = read_ndjson(mf)
+        for m in mism[:20]:
+            if pinned:
+                c.add_violation({"prop": c.prop, "clause": "rendering", "detail": f"final table {json.dumps(m['toks'])[:400]} under {m['cfg']}: the reconstructor emits {m['impl']!r}, the rendering rules give {m['spec']!r}",
+                                 "case": {"label": "MC_Recon table", "cfg": m["cfg"]}, "confirmed_by_tlc": True})
+            elif len(c.drift) < 5:
+                c.drift.append(m)
+        if mism and not pinned:
+            c.notes.append(f"MODEL-DRIFT Recon ({cfgname}): {len(mism)} token tables are rendered differently from the model")
+            c.extra["model_drift_Recon"] = c.extra.get("model_drift_Recon", 0) + len(mism)
+
+
 def c01(tier):
     build(("release",))
     c = Check("C01", tier, "model_checking")
@@ -246,6 +274,7 @@ def c01(tier):
 def c08(tier):
     build(("release",))
     c = Check("C08", tier, "model_checking")
+    recon_mc_and_replay(c, tier, False)
     c.explore(basic_corpus(tier), "corpus", ["C08"], sample_cap=Q(tier, 250, 1500))
     return c.finish(
         rule="as C01; the whitespace predicates of Props.tla (WhitespaceViolations) are evaluated on the final token table of every call; the end-of-file clause on well-formed inputs (seeds) only")
@@ -306,6 +335,7 @@ def c03(tier):
 def c09(tier):
     build(("release",))
     c = Check("C09", tier, "model_checking")
+    recon_mc_and_replay(c, tier, True)
     tasks = wf_corpus(tier, Q(tier, "six", "wide"))
     t2, _ = soup_tasks("full", 2, "six", sample_every=Q(tier, 1999, 499))
     tasks += t2 + splice_tasks(Q(tier, 2000, 30000), "six", sample_every=Q(tier, 199, 997)) + walk_tasks(Q(tier, 5000, 100000), "six", sample_every=997)
@@ -318,6 +348,7 @@ def c09(tier):
 def c10(tier):
     build(("release",))
     c = Check("C10", tier, "model_checking")
+    recon_mc_and_replay(c, tier, True)
     grid = [0, 1, 2, 3, 4, 8, 16, 127, 128, 255]
     cfgs = []
     import random
